@@ -98,7 +98,7 @@ def run_check(chk, ctx):
                 broken.append({"kind": "axioms", "name": t, "detail": ",".join(axioms[t])})
             else:
                 discharged += 1
-    hits = C.scan_forbidden()
+    hits = C.scan_forbidden([chk.module])
     if hits:
         broken.append({"kind": "forbidden-token", "name": "lean sources", "detail": "\n".join(hits[:10])})
     lc = None
